@@ -740,9 +740,9 @@ NAMES = ["U235", "U238", "PU239", "FE56", "NA23", "ZR90", "O16", "B10", "C", "MO
 RXN1 = ["nGamma", "nalph", "np", "nd", "nt", "fission", "n2n"]
 
 
-def gen_macro_lib(rng, ctx, names=None, suf=None):
+def gen_macro_lib(rng, ctx, names=None, suf=None, ng=None):
     from armi.nucDirectory import nuclideBases
-    ng = rng.choice([1, 2, 3, 4, 5]) if not ctx.thorough else rng.choice([1, 2, 3, 4, 5, 8, 12])
+    ng = ng or (rng.choice([1, 2, 3, 4, 5]) if not ctx.thorough else rng.choice([1, 2, 3, 4, 5, 8, 12]))
     suf = suf or rng.choice(["AA", "AB", "ZC"])
     names = names or rng.sample(NAMES, rng.randint(1, 7))
     nucs = []
@@ -942,6 +942,29 @@ def load_real_block():
 def macro_libs(libid):
     """(library handed to the implementation, independent reference copy used for the model / oracle)"""
     import copy
+    from armi.nuclearDataIO import xsLibraries
+    if "merged_fixtures" in libid:
+        # ISOAA merged with ISOAB whose scatter matrices are scaled so that the two XS IDs visibly differ
+        lib = xsLibraries.IsotxsLibrary()
+        for name in libid["merged_fixtures"]:
+            part = load_fixture(name)
+            if name == "isoAB":
+                for n in part.nuclides:
+                    for a in ("elasticScatter", "inelasticScatter", "n2nScatter"):
+                        if getattr(n.micros, a) is not None:
+                            setattr(n.micros, a, getattr(n.micros, a) * libid.get("scale", 1.5))
+            lib.merge(part)
+        return lib, copy.deepcopy(lib)
+    if "merged_libs" in libid:
+        out = []
+        for fresh in (False, True):
+            lib = xsLibraries.IsotxsLibrary()
+            for spec in libid["merged_libs"]:
+                lib.merge(build(spec, fresh_defaults=fresh))
+            for n in lib.nuclides:
+                n.updateBaseNuclide()
+            out.append(lib)
+        return out[0], out[1]
     if "fixture" in libid:
         lib = load_fixture(libid["fixture"])
         ref = copy.deepcopy(lib)
@@ -1175,19 +1198,162 @@ def run_macro(ctx):
     ctx.samples.append({"request": pending[0][0][:300], "model": model[0][:200], "impl": str(show_impl(pending[0][3]))[:200]})
 
 
+def macros_vs_reference(m, ref, comp, suf):
+    """clauses of one createMacrosFromMicros result against an independent reference library: every reaction, the three
+    scatter matrices, total scatter, absorption and removal = the sums over THIS suffix's nuclides. Returns failures."""
+    out = []
+    dens = {k: v for k, v in comp.items() if v > 0.0}
+    ng = len(m.absorption)
+    for rxn in RXN1:
+        want = direct_sum(ref, dens, suf, rxn, "micros", None)
+        if want is None or not vec_close(getattr(m, rxn), want):
+            out.append(("macro-weighted-sum", "creator reaction = sum_n N_n * sigma_n over the block's own XS ID", rxn))
+    mats = {}
+    for a in ("elasticScatter", "inelasticScatter", "n2nScatter"):
+        want = np.zeros((ng, ng))
+        for k, v in dens.items():
+            nuc = lookup(ref, k, suf)
+            if nuc is not None and getattr(nuc.micros, a) is not None:
+                want = want + v * getattr(nuc.micros, a).toarray()
+        mats[a] = want
+        if not np.allclose(getattr(m, a).toarray(), want, rtol=1e-12, atol=1e-300):
+            out.append(("macro-scatter-weighted-sum", "macroscopic scatter matrix = sum_n N_n * matrix_n over the block's own XS ID", a))
+    ts = mats["elasticScatter"] + mats["inelasticScatter"] + 2.0 * mats["n2nScatter"]
+    if not np.allclose(m.totalScatter.toarray(), ts, rtol=1e-12, atol=1e-300):
+        out.append(("derived-total-scatter", "totalScatter = elastic + inelastic + 2*n2n (of this block)", None))
+    absum = sum(np.array([float(x) for x in direct_sum(ref, dens, suf, r, "micros", None)])
+                for r in ("nGamma", "fission", "nalph", "np", "nd", "nt", "n2n")) if dens else None
+    if absum is not None:
+        if not np.allclose(m.absorption, absum, rtol=1e-12, atol=1e-300):
+            out.append(("derived-absorption", "absorption = sum of the absorption reactions (of this block)", m.absorption.tolist()))
+        n2n = np.array([float(x) for x in direct_sum(ref, dens, suf, "n2n", "micros", None)])
+        rem = absum - n2n + ts.sum(axis=0) - np.diag(ts)
+        if not np.allclose(m.removal, rem, rtol=1e-11, atol=1e-300):
+            out.append(("derived-removal", "removal = absorption - n2n + out-scatter (of this block)", m.removal.tolist()))
+    return out
+
+
+def same_macros(a, b):
+    for k in ("nGamma", "fission", "nalph", "np", "nd", "nt", "n2n", "nuSigF", "absorption", "removal", "chi", "total", "transport"):
+        if not np.array_equal(np.asarray(getattr(a, k)), np.asarray(getattr(b, k))):
+            return k
+    for k in ("elasticScatter", "inelasticScatter", "n2nScatter", "totalScatter"):
+        if not np.array_equal(getattr(a, k).toarray(), getattr(b, k).toarray()):
+            return k
+    return None
+
+
+def reuse_sequence(libid, blocks, how, sink, pending=None):
+    """ONE MacroscopicCrossSectionCreator reused over blocks [(composition, suffix), ...] whose XS IDs alternate, on a merged
+    library holding both IDs. Every block's result must equal a fresh creator's and the reference sums of its own suffix."""
+    from armi.nuclearDataIO import xsCollections as xc
+    lib, ref = macro_libs(libid)
+    fp0 = micro_fingerprint(ref)
+    mc = xc.MacroscopicCrossSectionCreator()
+    stubs = [StubBlock(c, s) for c, s in blocks]
+    if how == "blocklist":
+        res = call(mc.createMacrosOnBlocklist, lib, stubs)
+        results = [("ok", b.macros) if res[0] == "ok" else res for b in stubs]
+    else:
+        results = [call(mc.createMacrosFromMicros, lib, b) for b in stubs]
+    for i, ((comp, suf), res) in enumerate(zip(blocks, results)):
+        case = dict(libid, blocks=[[c, s] for c, s in blocks], index=i, how=how, suffix=suf, composition=comp,
+                    function="reused MacroscopicCrossSectionCreator")
+        if res[0] != "ok":
+            sink("creator-rejects-valid-composition", "macros exist for a composition fully covered by the library", case, str(res[1]), None)
+            continue
+        m = res[1]
+        for key, clause, obs in macros_vs_reference(m, ref, comp, suf):
+            sink(key, clause + " [reused creator, block %d of %d, XS ID %s]" % (i + 1, len(blocks), suf), case, obs, None)
+        lib2, _ = macro_libs(libid)
+        fresh = call(xc.MacroscopicCrossSectionCreator().createMacrosFromMicros, lib2, StubBlock(comp, suf))
+        if fresh[0] != "ok" or same_macros(m, fresh[1]):
+            sink("creator-reuse-differs-from-fresh-creator", "a reused creator gives what a fresh creator gives for the same block",
+                 case, same_macros(m, fresh[1]) if fresh[0] == "ok" else str(fresh), None)
+        if pending is not None:
+            ng = len(m.absorption)
+            dens = {k: v for k, v in comp.items() if v > 0.0}
+            libnucs = ref.getNuclides(suf)
+            for a in ("elasticScatter", "inelasticScatter", "n2nScatter"):
+                items = ",".join(f"[{rat(dens.get(n.name, 0.0))},{'N' if getattr(n.micros, a) is None else enc_mat(getattr(n.micros, a).toarray())}]"
+                                 for n in libnucs)
+                pending.append((f"scatter {ng} [{items}]", "reused creator." + a, dict(case, matrix=a), ("ok", getattr(m, a))))
+            pending.append((f"totscat {enc_mat(m.elasticScatter.toarray())} {enc_mat(m.inelasticScatter.toarray())} {enc_mat(m.n2nScatter.toarray())}",
+                            "reused creator.totalScatter", case, ("ok", m.totalScatter)))
+            pending.append((f"removal {ng} {enc_vec(m.absorption)} {enc_vec(m.n2n)} {enc_mat(m.totalScatter.toarray())}",
+                            "reused creator.removal", case, ("ok", m.removal)))
+    if micro_fingerprint(lib) != fp0:
+        sink("macro-creation-mutates-microscopic-data", "computing macroscopic constants never changes the library's microscopic data",
+             dict(libid, blocks=[[c, s] for c, s in blocks], how=how, suffix=blocks[-1][1], composition=blocks[-1][0]), "arrays changed", None)
+
+
+def run_reuse(ctx):
+    """creator reuse across XS IDs (createMacrosOnBlocklist / a generator looping over blocks)"""
+    rng = ctx.rng
+    pending = []
+
+    def sink(key, clause, case, obs, exp):
+        ctx.count("oracle failure: " + key)
+        if ctx.hist["oracle failure: " + key] <= 3:
+            ctx.fail(key, clause, case, observed=obs, expected=exp)
+
+    jobs = [{"merged_fixtures": ["isoAA", "isoAB"], "scale": 1.5}]
+    for _ in range(ctx.pick(8, 80)):
+        ng = rng.choice([1, 2, 3, 4])
+        names = rng.sample(NAMES, rng.randint(1, 5))
+        sa, _, _, _ = gen_macro_lib(rng, ctx, names=names, suf="AA", ng=ng)
+        sb, _, _, _ = gen_macro_lib(rng, ctx, names=names, suf="AB", ng=ng)
+        for spec in (sa, sb):   # the second-suffix decoy of gen_macro_lib would collide between the two
+            spec["nucs"] = [x for x in spec["nucs"] if not x[0].endswith("QQ")]
+        specs = [sa, sb]
+        if rng.random() < 0.4:
+            sc, _, _, _ = gen_macro_lib(rng, ctx, names=names, suf="BA", ng=ng)
+            sc["nucs"] = [x for x in sc["nucs"] if not x[0].endswith("QQ")]
+            specs.append(sc)
+        jobs.append({"merged_libs": specs})
+    for libid in jobs:
+        if "merged_fixtures" in libid:
+            _lib, ref = macro_libs(libid)
+            names = sorted({n.name for n in ref.nuclides})
+            sufs = ["AA", "AB"]
+        else:
+            names = [n[1]["isotxsMetadata"]["nuclideId"] for n in libid["merged_libs"][0]["nucs"]]
+            sufs = [sp["nucs"][0][0][-2:] for sp in libid["merged_libs"]]
+        for nblocks in (2, rng.choice([3, 4, 5])):
+            start = rng.randrange(len(sufs))
+            blocks = []
+            for i in range(nblocks):
+                comp = {nm: dy(rng, 0, 4, 4) for nm in rng.sample(names, rng.randint(1, min(len(names), 6)))}
+                comp[rng.choice(list(comp))] = dy(rng, 1, 4, 4) / 4
+                blocks.append((comp, sufs[(start + i) % len(sufs)]))
+            small = "merged_libs" in libid
+            for order, how in ((blocks, "blocklist"), (blocks[::-1], "loop")):
+                reuse_sequence(libid, order, how, sink, pending if small else None)
+                ctx.case(("reuse", json.dumps([b[1] for b in order]), how, hash(json.dumps(libid, sort_keys=True, default=str))))
+                ctx.count(f"creator reused over {len(order)} blocks ({how})")
+    if pending:
+        model = lean_run("XsLib", [p[0] for p in pending])
+        for (rq, what, case, res), ml in zip(pending, model):
+            compare_vec(ctx, what, case, ml, res)
+            ctx.evaluations += 1
+            ctx.count("macro request (reuse): " + rq.split(" ")[0])
+
+
 def run(ctx):
     import logging
     logging.disable(logging.CRITICAL)  # runLog.error chatter of the refused calls
     try:
         run_merge(ctx)
         run_macro(ctx)
+        run_reuse(ctx)
     finally:
         logging.disable(logging.NOTSET)
     ctx.rule = ("merge: seeded scenarios of 2-4 libraries (iso/gamiso/pmatrx-like and pre-merged mixes, 1-33 groups, 1-4 nuclides "
                 "per suffix, optional reactions, sparse scatter, 8 kinds of injected conflict) + the six fixture libraries, every "
                 "merge order (<= 24); one case = one ordered merge sequence, distinct by the canonical source snapshots, "
                 "non-trivial when >= 2 libraries. macros: seeded libraries x compositions (zero densities, missing nuclides, "
-                "missing reactions); one case = one composition on one library, non-trivial when some density is non-zero.")
+                "missing reactions); one case = one composition on one library, non-trivial when some density is non-zero. "
+                "reuse: one creator over 2-5 blocks with alternating XS IDs on merged two/three-ID libraries, both block orders.")
 
 
 # ----------------------------------------------------------------------------- search / replay
@@ -1217,6 +1383,10 @@ def search(ctx, disagreements, broken):
                     subitems = [items[i] for i in sub]
                     oracle_scenario(ctx, it, attrs, subitems, c.get("tag", "?"), None,
                                     list(itertools.permutations(range(size))), sink)
+        elif isinstance(c, dict) and "blocks" in c:
+            libid = {k: c[k] for k in ("merged_libs", "merged_fixtures", "scale") if k in c}
+            for order in (c["blocks"], c["blocks"][::-1]):
+                reuse_sequence(libid, [(x, sfx) for x, sfx in order], "loop", sink)
         elif isinstance(c, dict) and "composition" in c:
             lib, _ref = macro_libs(c)
             comp, suf = c["composition"], c["suffix"]
@@ -1295,6 +1465,13 @@ def replay(ctx, payload):
             else list(itertools.permutations(range(n)))
         oracle_scenario(ctx, it, coll_attrs(), case["libs"], case.get("tag", "?"), None, orders,
                         lambda k, cl, c, o, e: hits.append({"key": k, "clause": cl, "observed": o, "order": c["order"]}))
+        hit = [h for h in hits if h["key"] == key]
+        return hit[0] if hit else None
+    if isinstance(case, dict) and "blocks" in case:
+        hits = []
+        libid = {k: case[k] for k in ("merged_libs", "merged_fixtures", "scale") if k in case}
+        reuse_sequence(libid, [(c, sfx) for c, sfx in case["blocks"]], case.get("how", "loop"),
+                       lambda k, cl, c, o, e: hits.append({"key": k, "clause": cl, "observed": o}))
         hit = [h for h in hits if h["key"] == key]
         return hit[0] if hit else None
     if isinstance(case, dict) and "composition" in case:
